@@ -203,6 +203,8 @@ pub struct Cfg {
     /// Handlers go through the `processor()` function generated by the derive macro /
     /// `RawCommand::processor` (the path applications use) instead of a hand-written `CommandProcessor`
     pub derived: bool,
+    /// Fail this sink call (0-based) while the Cli is being constructed
+    pub build_fault: Option<usize>,
 }
 
 impl Default for Cfg {
@@ -218,6 +220,7 @@ impl Default for Cfg {
             family: "manual".into(),
             use_new: false,
             derived: false,
+            build_fault: None,
         }
     }
 }
@@ -301,6 +304,10 @@ impl Trace {
             if c.use_new { "new" } else { "builder" },
             if c.derived { "derived" } else { "raw" }
         );
+        if let Some(k) = c.build_fault {
+            s.pop();
+            let _ = writeln!(s, " buildfail={k}");
+        }
         for e in &self.events {
             for f in &e.faults {
                 let _ = writeln!(s, "fail call={} n={}", f.call, f.n);
@@ -383,6 +390,8 @@ impl Trace {
                             c.use_new = v == "new";
                         } else if let Some(v) = kv(t, "proc") {
                             c.derived = v == "derived";
+                        } else if let Some(v) = kv(t, "buildfail") {
+                            c.build_fault = Some(v.parse().map_err(|_| err(format!("bad {t}")))?);
                         } else {
                             return Err(err(format!("unknown cfg key {t}")));
                         }
